@@ -1086,6 +1086,68 @@ pub fn run(ctx: &Ctx) -> Report {
         rep.bound("unmerged_sequences", json!({"n3_le2_clauses": {"cnfs": n3, "depth": d3, "decide": "every literal, assigned or not", "max_open_decisions": "num_vars+1"}, "n4_binary_plus_ternary": {"cnfs": cnfs.len() - n3, "depth": d4, "decide": "unassigned variables", "max_open_decisions": open4}, "merging": "none"}));
         rep.merge(fam);
     }
+    // long formulas, each explored directly after a short one on the same thread: 58 to 70 literal occurrences
+    // (per-occurrence tables and primes around the 64th entry), the last clause over three variables of its own.
+    // The hash is a wrapping product here, so "equal hashes only for identical residual formulas" is decided for
+    // the explored states only (an accidental collision modulo 2^128 would be reported; none exists on the clean
+    // tree and the exploration is deterministic)
+    if !disabled("longsolver") {
+        // (ternary, binary) clause counts of the prefix over x2..x5: the last clause's own variables x0, x1 then sit
+        // at the literal occurrences (b - 1, b) or (b, b + 1) for b = 16, 32, 64 (the solver sorts every clause by
+        // label, so the own variables come first in the last clause)
+        let mut ks: Vec<(usize, usize)> = vec![(5, 0), (9, 2), (21, 0), (4, 2), (10, 1), (20, 2), (22, 0)];
+        if ctx.tier == Tier::Thorough {
+            ks.extend([(19, 0), (20, 0), (21, 1), (23, 0), (11, 0), (10, 0)]);
+        }
+        let items: Vec<((usize, usize), usize)> = ks.iter().flat_map(|&k| [(k, 0usize), (k, 1)]).collect();
+        let fam = par_run(ctx, &items, |_, (k, variant)| {
+            let mut r = Report::default();
+            r.exhaustive = true;
+            // distinct clauses over x2..x5, each with a positive literal (all-true is a model)
+            let mut clauses: Vec<Clause> = Vec::new();
+            let mut t = 0usize;
+            while clauses.len() < k.0 {
+                let skip = t % 4;
+                let vs: Vec<usize> = (2..6).filter(|&v| v != 2 + skip).collect();
+                let pat = (t / 4) % 8;
+                t += 1;
+                if pat == 7 {
+                    continue; // all three negative
+                }
+                let cl: Clause = vec![(vs[0], pat & 1 == 0), (vs[1], pat & 2 == 0), (vs[2], pat & 4 == 0)];
+                if !clauses.contains(&cl) {
+                    clauses.push(cl);
+                }
+            }
+            for j in 0..k.1 {
+                clauses.push(vec![(2 + j, true), (4 + j % 2, j % 2 == 0)]);
+            }
+            // the last clause: two variables of its own and one shared literal
+            clauses.push(vec![(0, true), (1, true), (5, *variant == 0)]);
+            // a short formula first, on this thread
+            let short: Vec<Clause> = vec![vec![(0, true), (1, true), (2, true)], vec![(1, false), (2, true)]];
+            for (cl, nv, open) in [(short, 3usize, 4usize), (clauses, 6, 2)] {
+                let res = explore_cnf(&cl, nv, open, 100_000);
+                r.states += res.states;
+                r.transitions += res.transitions;
+                r.traces += 1;
+                r.add_extra("unsat_decisions", res.unsat_results);
+                r.add_extra("sat_states", res.sat_states);
+                r.add_extra("pops", res.pops);
+                if let Some((hist, what)) = res.violation {
+                    r.violation(
+                        "solver-state-violates-statement",
+                        format!("cnf {} ({} literal occurrences, explored after a short formula on the same thread) after {:?}: {}", cnf_json(&cl), cl.iter().map(|c| c.len()).sum::<usize>(), hist, what),
+                        json!({"kind": "solver", "cnf": cnf_json(&cl), "n": nv, "history": hist.iter().map(act_json).collect::<Vec<_>>()}),
+                    );
+                }
+            }
+            r
+        });
+        rep.add_extra("long_formula_states", fam.states);
+        rep.bound("long_formulas", json!({"prefix_clauses_ternary_binary": ks, "literal_occurrences": "48 to 75", "variables": 6, "max_open_decisions": 2, "each_after": "a short formula explored on the same thread"}));
+        rep.merge(fam);
+    }
     rep.evaluations = rep.transitions;
     let unsat = rep.extra.get("unsat_decisions").and_then(|v| v.as_u64()).unwrap_or(0);
     let sat = rep.extra.get("sat_states").and_then(|v| v.as_u64()).unwrap_or(0);
@@ -1111,7 +1173,7 @@ pub fn run(ctx: &Ctx) -> Report {
         }
     }
     rep.assumptions.push("frontier states are live copies made by the verif_clone hook; the canonical key is the verif_snapshot hook (watch lists as sorted multisets + state stack); the statement itself is checked through is_set / difference_iter / is_sat / cur_hash / DecisionResult only".into());
-    rep.assumptions.push("hash/residual check is per CNF and assumes <= 26 literal occurrences (no u128 wrap-around); the enumerated CNFs have <= 18".into());
+    rep.assumptions.push("hash/residual check is per CNF; the enumerated CNFs have <= 18 literal occurrences (no u128 wrap-around), the long formulas 48 to 75 (wrapping product: decided for the explored states)".into());
     rep.assumptions.push("at most num_vars+1 open decisions (deciding an already-true variable pushes a duplicate level, the only source of unboundedness)".into());
     rep
 }
